@@ -73,7 +73,7 @@ def run_demo(copy, vdir, meta):
     return rc_all, "\n".join(outs)
 
 def main():
-    pid, vdir = sys.argv[1], sys.argv[2].rstrip("/")
+    pid, vdir = sys.argv[1], os.path.abspath(sys.argv[2].rstrip("/"))
     tier = sys.argv[3] if len(sys.argv) > 3 and not sys.argv[3].startswith("--") else "quick"
     keep = "--keep" in sys.argv
     meta = {}
